@@ -708,15 +708,19 @@ Definition is_either (rules : list rule) (req : path) (v : tree) : option (bool 
   | None => cls
   end.
 
-Fixpoint compare (rules : list rule) (st : state) (bare : bag) (steps : list (op * obs)) : bool :=
+Fixpoint compare (rules : list rule) (st : state) (bare : option bag) (steps : list (op * obs)) : bool :=
   match steps with
   | [] => true
   | (o, seen) :: r =>
       match o with
       | OBare req v =>
-          match bare_set drv_valid rules bare req v with
-          | (RUnsupported, _) => true
-          | (res, b') => obs_eqb (BBag (rres_eqb res ROk) b') seen && compare rules st b' r
+          match bare with
+          | None => compare rules st None r               (* bare databag no longer known *)
+          | Some bb =>
+              match bare_set drv_valid rules bb req v with
+              | (RUnsupported, _) => compare rules st None r
+              | (res, b') => obs_eqb (BBag (rres_eqb res ROk) b') seen && compare rules st (Some b') r
+              end
           end
       | _ =>
           let normal :=
@@ -744,7 +748,7 @@ Fixpoint compare (rules : list rule) (st : state) (bare : bag) (steps : list (op
   end.
 
 Definition mismatch (c : case) : bool :=
-  match c with CHist rules steps => negb (compare rules (mkState [] []) [] steps) end.
+  match c with CHist rules steps => negb (compare rules (mkState [] []) (Some []) steps) end.
 
 (* the property on the implementation's observed behaviour:
    - a Get that returned a value although no readable rule matches the request, or a Set/Unset that was accepted
@@ -800,13 +804,22 @@ Fixpoint readback_bad (rules : list rule) (i : nat) (req : path) (v : tree) (ste
   | _ => false
   end.
 
-Fixpoint monitor (rules : list rule) (cur : bag) (tainted : list nat) (steps : list (op * obs)) : bool :=
+(* - a rejected Set/Unset records nothing: a Get repeated in the same transaction with only Gets and REJECTED
+     Sets/Unsets in between must give the same answer (recent = the Gets seen since the last operation that may
+     legitimately change a view) *)
+Definition recent_differs (recent : list (nat * path * vres)) (i : nat) (g : path) (s : vres) : bool :=
+  existsb (fun e => match e with (j, g', s') => Nat.eqb i j && path_eqb g g' && negb (vres_eqb s s') end) recent.
+
+Fixpoint monitor (rules : list rule) (cur : bag) (tainted : list nat) (recent : list (nat * path * vres))
+                 (steps : list (op * obs)) : bool :=
   match steps with
   | [] => false
   | (o, seen) :: r =>
       let bad :=
         match o, seen with
-        | OGet _ req, BVal (VOk _) => match matches readable rules req with [] => true | _ => false end
+        | OGet i req, BVal s =>
+            (match s with VOk _ => match matches readable rules req with [] => true | _ => false end | _ => false end)
+            || recent_differs recent i req s
         | OSet i req v, BRes ROk =>
             match matches writeable rules req with
             | [] => true
@@ -823,8 +836,14 @@ Fixpoint monitor (rules : list rule) (cur : bag) (tainted : list nat) (steps : l
                       | OSet i _ v, BRes ROk => if has_null v then i :: tainted else tainted
                       | _, _ => tainted
                       end in
-      bad || monitor rules cur' tainted' r
+      let recent' := match o, seen with
+                     | OGet i req, BVal s => (i, req, s) :: recent
+                     | OSet _ _ _, BRes ROk | OUnset _ _, BRes ROk => []
+                     | OSet _ _ _, BRes _ | OUnset _ _, BRes _ => recent
+                     | _, _ => []
+                     end in
+      bad || monitor rules cur' tainted' recent' r
   end.
 
 Definition monitor_fail (c : case) : bool :=
-  match c with CHist rules steps => monitor rules [] [] steps end.
+  match c with CHist rules steps => monitor rules [] [] [] steps end.
